@@ -173,6 +173,7 @@ WORLDS.append(b.world([
     mref("x", 13, "same-name-as-space-ref"),
     mdel("x", "same-name-as-space-ref"),
     sref("m.S", "x", 17, how="absolute"),
+    e("m.S.absref(x=18)", "space-ref-set", "refmode-absolute", probe="_srk(m, m.S, 'x')"),
     sref("m.T", "s", "m.T", "ref-to-space-retarget"),
     sref("m.T", "x", 19, "other-space"),
     e("m.S.a.formula = 'lambda: x + 10000'", "formula-set"),
@@ -255,6 +256,7 @@ b.leaf("T", "m.T", "t", "_model.Sub.r + 1000", "attr-derived-ref", wrap="cu")
 b.leaf("T", "m.T", "t2", "_model.Sub2.r + 2000", "attr-derived-ref", "second-level-sub", wrap="")
 b.add(cells("T", "tf", "_model.Sub.foo() + 3000"))
 b.q("m.T.tf()", "attr-derived-cells", "caller-in-other-space", unc=("Sub.foo",))
+b.q("m.Sub3.bar()", "name-derived-ref", "derived-cells", "via:cached-callee", "sub-created-later", unc=("Sub3.foo",))
 WORLDS.append(b.world([
     sref("m.B1", "r", 3, "in-base"),
     sref("m.B2", "r", 4, "in-base"),
@@ -272,6 +274,7 @@ WORLDS.append(b.world([
     e("del m.B1", "space-delete", "base-space"),
     e("m.B1.foo.is_cached = False", "cached-flag", "in-base"),
     e("m.B2.bar.rename('bar2')", "cells-rename", "in-base"),
+    e("m.new_space('Sub3', bases=m.Sub)", "space-create", "new-sub-space"),
 ]))
 
 # ------------------------------------------------------------------------------------------------------------
@@ -349,6 +352,7 @@ WORLDS.append(b.world([
     e("m.R.formula = lambda j: {'refs': {'kk': base() + j * 2}}", "space-formula-set"),
     e("m.P.formula = lambda i: {'refs': {'x': 50}}", "space-formula-set"),
     e("m.P.formula = lambda i, j=0: None", "space-formula-set", "parameters"),
+    e("del m.R.formula", "space-formula-delete"),
     e("m.P.c.formula = 'lambda: x + i * 20 + g * 100'", "formula-set"),
     e("try:\n    del m.P[1]\nexcept KeyError:\n    pass", "itemspace-delete"),
     e("m.P.clear_items()", "itemspace-delete"),
